@@ -16,6 +16,8 @@ From Coq Require Import ZArith List Bool.
 From DV Require Import Model.PyPrims Model.C13Model Model.C13GenPrims Gen.Routes
   Proofs.C13GenStmts Proofs.C13GenObjects Proofs.C13GenWf Proofs.C13GenTaxa Proofs.C13GenReader Proofs.C13GenYielder
   Proofs.C13GenGlue Proofs.C13GenEntry Proofs.C13GenFinal.
+From DV Require Import Model.C13MapPrims Gen.RoutesMapper Proofs.C13GenMapper Proofs.C13MapperTie.
+From Coq Require String. Import String.StringSyntax.
 Import ListNotations.
 Open Scope Z_scope.
 
@@ -413,3 +415,176 @@ Theorem gen_routes_agree :
     end.
 Proof. exact G_routes_agree. Qed.
 Print Assumptions gen_routes_agree.
+
+(* ============ 6. the symbol mapper: class NexusTaxonSymbolMapper compiled (Gen/RoutesMapper.v) ============ *)
+(* Gen/RoutesMapper.v is compiled by py/dv/gen_routes_mapper.py from the CURRENT text of nexusprocessing.py over
+   Model/C13MapPrims.v (the mapper object = the record of its attributes, dicts = association lists, a
+   CaseInsensitiveDict = the same with lower-cased keys).  mo_abs reads an object as the model's mapper record;
+   mo_of nl m is the live object that stands for the model mapper m (nl = its write-only number->label dict). *)
+
+(* __init__ (+ _set_taxon_namespace, restore_taxon_namespace_mutability, reset_supplemental_mappings): whatever the
+   object held, afterwards the namespace is LOCKED, its former mutability is remembered, the TRANSLATE table is
+   empty and the label / number tables and the switch are those of the model's new_mapper *)
+Theorem gen_mapper_init :
+  forall (lower : str -> str) (o0 : mobj) (taxa : list str) (mut b : bool),
+  gm_init lower o0 (taxa, mut) b
+  = Ok (tt, mkMobj (Some (taxa, false)) (Some mut)
+                   (m_tokens (new_mapper lower taxa b)) (m_labels (new_mapper lower taxa b))
+                   (m_numbers (new_mapper lower taxa b))
+                   (rev (map (fun p => (dec_of_nat (S (fst p)), snd p)) (enum_from O taxa))) b).
+Proof. exact G_mapper_init. Qed.
+Print Assumptions gen_mapper_init.
+
+Theorem gen_mapper_add_translate_token :
+  forall (lower : str -> str) (o : mobj) (tok : str) (taxon : nat),
+  gm_add_translate_token lower o tok taxon = Ok (tt, set_mo_token o ((lower tok, taxon) :: mo_token o))
+  /\ mo_abs (set_mo_token o ((lower tok, taxon) :: mo_token o)) = add_translate_token lower (mo_abs o) tok taxon.
+Proof. exact G_mapper_add_translate_token. Qed.
+Print Assumptions gen_mapper_add_translate_token.
+
+(* new_taxon: unlock with the remembered mutability, new member, lock, label and number tables told *)
+Theorem gen_mapper_new_taxon :
+  forall (lower : str -> str) (nl : pdict str) (m : mapper) (label : str),
+  gm_new_taxon lower (mo_of nl m) label
+  = Ok (fst (mapper_new_taxon lower m label), mo_of nl (snd (mapper_new_taxon lower m label))).
+Proof. exact G_mapper_new_taxon. Qed.
+Print Assumptions gen_mapper_new_taxon.
+
+(* error branch: a namespace that was not mutable when the mapper was built cannot grow through it *)
+Theorem gen_mapper_new_taxon_locked :
+  forall (lower : str -> str) (o : mobj) (label : str),
+  mo_orig o = Some false \/ mo_orig o = None -> gm_new_taxon lower o label = Err TypeErr.
+Proof. exact G_mapper_new_taxon_locked. Qed.
+Print Assumptions gen_mapper_new_taxon_locked.
+
+(* lookup_taxon_symbol(symbol, create_taxon_if_not_found): TRANSLATE token, then label (both case-insensitive), then
+   number (if switched on), then a new taxon (if asked) or None - in this order *)
+Theorem gen_mapper_lookup_taxon_symbol :
+  forall (lower : str -> str) (nl : pdict str) (m : mapper) (sym : str) (create : bool),
+  gm_lookup_taxon_symbol lower (mo_of nl m) sym create
+  = Ok (fst (lookup_taxon_symbol lower m sym create), mo_of nl (snd (lookup_taxon_symbol lower m sym create))).
+Proof. exact G_mapper_lookup_taxon_symbol. Qed.
+Print Assumptions gen_mapper_lookup_taxon_symbol.
+
+(* require_taxon_for_symbol: the function handed to the statement parser as taxon_symbol_map_fn *)
+Theorem gen_mapper_require_taxon_for_symbol :
+  forall (lower : str -> str) (nl : pdict str) (m : mapper) (sym : str),
+  gm_require_taxon_for_symbol lower (mo_of nl m) sym
+  = Ok (Some (fst (require_taxon_for_symbol lower m sym)), mo_of nl (snd (require_taxon_for_symbol lower m sym))).
+Proof. exact G_mapper_require_taxon_for_symbol. Qed.
+Print Assumptions gen_mapper_require_taxon_for_symbol.
+
+(* the hypothesis `mo_of` is no restriction on objects built by __init__ over a mutable namespace: every live object
+   (remembered mutability True, namespace locked) is one, and the compiled methods keep objects live *)
+Theorem gen_mapper_live_objects :
+  forall (lower : str -> str),
+  (forall o, mo_live o -> o = mo_of (mo_number_label o) (mo_abs o))
+  /\ (forall o0 taxa b, exists o, gm_init lower o0 (taxa, true) b = Ok (tt, o) /\ mo_live o)
+  /\ (forall o sym, mo_live o ->
+       exists o', gm_require_taxon_for_symbol lower o sym
+                  = Ok (Some (fst (require_taxon_for_symbol lower (mo_abs o) sym)), o')
+                  /\ mo_abs o' = snd (require_taxon_for_symbol lower (mo_abs o) sym) /\ mo_live o').
+Proof.
+  intros lower. split; [exact mo_live_of|]. split; [|exact (G_mapper_require_live lower)].
+  intros o0 taxa b. eexists. split; [apply G_mapper_init|]. split; [reflexivity | exists taxa; reflexivity].
+Qed.
+Print Assumptions gen_mapper_live_objects.
+
+(* ---- the operations through which the compiled block drivers use the mapper are the compiled methods ---- *)
+Theorem gen_tie_new_mapper :
+  forall (T : Type) (lower : str -> str) (s : gst T) (ns : option nat) (b mut : bool) (o0 : mobj),
+  exists o, gm_init lower o0 (ns_taxa_at (r_k s) (on_get ns), mut) b = Ok (tt, o)
+            /\ ifc_new_mapper T lower s ns b = Ok (Some (on_get ns, mo_abs o), s)
+            /\ mo_ns o = Some (ns_taxa_at (r_k s) (on_get ns), false) /\ mo_orig o = Some mut.
+Proof. exact tie_new_mapper. Qed.
+Print Assumptions gen_tie_new_mapper.
+
+Theorem gen_tie_add_translate_token :
+  forall (T : Type) (lower : str -> str) (s : gst T) (ns : nat) (m : mapper) (tok : option str) (t : otaxon) (nl : pdict str),
+  exists o, gm_add_translate_token lower (mo_of nl (mapper_set_ns m (ns_taxa_at (r_k s) ns)))
+              (match tok with Some x => x | None => s2z "None" end) (tx_index t) = Ok (tt, o)
+            /\ ifc_mapper_add_token T lower s (Some (ns, m)) tok t = Some (ns, mo_abs o).
+Proof. exact tie_add_translate_token. Qed.
+Print Assumptions gen_tie_add_translate_token.
+
+Theorem gen_tie_lookup_taxon_symbol :
+  forall (T : Type) (lower : str -> str) (s : gst T) (ns : nat) (m : mapper) (sym : option str) (create : bool) (nl : pdict str),
+  exists r o, gm_lookup_taxon_symbol lower (mo_of nl (mapper_set_ns m (ns_taxa_at (r_k s) ns))) (o_text sym) create = Ok (r, o)
+    /\ ifc_mapper_lookup T lower s (Some (ns, m)) sym create
+       = Ok (match r with Some i => Some (i, nth i (nso_taxa (mo_nso o)) []) | None => None end,
+             Some (ns, mo_abs o), st_set_k T s (set_ns_taxa (r_k s) ns (nso_taxa (mo_nso o)))).
+Proof. exact tie_lookup_taxon_symbol. Qed.
+Print Assumptions gen_tie_lookup_taxon_symbol.
+
+(* ============ 7. route agreement THROUGH the mapper: every leaf symbol to the same taxon ============ *)
+(* g_parse_tree lower X scan: a statement parser whose tokenizer side `scan` is arbitrary (the leaf symbols of the next
+   tree in document order + the rest of the tree) and whose taxa come from the COMPILED require_taxon_for_symbol,
+   called once per leaf in order; a tree is (rest, [(symbol, taxon)]).  It computes what the model's mapper computes: *)
+Theorem gen_resolution_is_model :
+  forall (lower : str -> str) (X : Type) (scan : tz -> res (option (list str * X) * tz)) (m : mapper) (z : tz),
+  g_parse_tree lower X scan m z
+  = (do r <- scan z ;;
+     match fst r with
+     | None => Ok (None, m, snd r)
+     | Some (syms, x) => Ok (Some (x, combine syms (fst (m_resolve lower m syms))), snd (m_resolve lower m syms), snd r)
+     end).
+Proof. exact g_parse_tree_eq. Qed.
+Print Assumptions gen_resolution_is_model.
+
+(* for EVERY token stream and every tokenizer side that consumes a prefix: TreeList.read - compiled entry point,
+   read_tree_lists, _read, the reader's block loops, the compiled TAXLABELS / TRANSLATE statements, the compiled
+   mapper - adds to the list exactly the trees, leaf by leaf (symbol, taxon), that the compiled iterator
+   (Tree.yield_from_files into the same namespace: its own block loops, the same statements and mapper) hands out,
+   and fails exactly when it fails, with the same error *)
+Theorem gen_leaf_symbols_resolve_same :
+  forall (lower upper : str -> str) (X : Type) (scan : tz -> res (option (list str * X) * tz))
+         (set_label : leaf_tree X -> option str -> leaf_tree X) (add_comments : leaf_tree X -> list str -> leaf_tree X),
+  (forall z o z', scan z = Ok (o, z') -> exists pre, z_toks z = pre ++ z_toks z') ->
+  (forall s, upper (upper s) = upper s) ->
+  forall (ns0 : list str) (d : doc) (tl0 : list (leaf_tree X)),
+  let P := g_parse_tree lower X scan in
+  let Y := g_yield_items_from_stream (leaf_tree X) lower upper P set_label add_comments (mkNsCfg true (FacFixed false)) false
+             (doc_fuel d)
+             (mkRs (core_init (mkNsCfg true (FacFixed false)) ns0 d) (regs_init (mkNsCfg true (FacFixed false))) [] []) tt in
+  g_treelist_parse_and_create_from_stream (leaf_tree X) (doc_fuel d) tt
+    (route_reader_ns (leaf_tree X) lower upper P set_label add_comments Nexus ns0) d None None tl0
+  = match snd Y with
+    | Ok _ => Ok (tl0 ++ fst Y, tt)
+    | Err e => Err e
+    | OutOfFuel => OutOfFuel
+    end.
+Proof. exact (fun lower upper X scan sl ac Hs Hu => R_leaf_symbols_same lower X scan Hs upper sl ac Hu). Qed.
+Print Assumptions gen_leaf_symbols_resolve_same.
+
+(* whichever namespace configuration (attached or not, one fixed namespace or a new one per TAXA block) and tree-list
+   factory: the compiled reader and the compiled iterator leave EVERY namespace object with the same members in the
+   same order, and the taxa of all leaves, in document order, are the same *)
+Theorem gen_namespaces_same_members_same_order :
+  forall (lower upper : str -> str) (X : Type) (scan : tz -> res (option (list str * X) * tz))
+         (set_label : leaf_tree X -> option str -> leaf_tree X) (add_comments : leaf_tree X -> list str -> leaf_tree X),
+  (forall z o z', scan z = Ok (o, z') -> exists pre, z_toks z = pre ++ z_toks z') ->
+  (forall s, upper (upper s) = upper s) ->
+  forall (nc : nscfg) (tlf : tl_factory) (ns0 : list str) (d : doc),
+  let P := g_parse_tree lower X scan in
+  let Y := g_yield_items_from_stream (leaf_tree X) lower upper P set_label add_comments nc false (doc_fuel d)
+             (mkRs (core_init nc ns0 d) (regs_init nc) [] []) tt in
+  let R := g_parse_nexus_stream (leaf_tree X) lower upper P set_label add_comments nc tlf false (doc_fuel d)
+             (nexus_init (leaf_tree X) (mkCfg nc tlf) ns0 d) tt in
+  match snd Y with
+  | Ok (_, sy) =>
+    exists s, R = Ok (tt, s) /\ k_nss (r_k s) = k_nss (r_k sy)
+              /\ concat (map (fun t => map snd (snd t)) (match tlf with TLFixed => rs_list0 (leaf_tree X) s
+                                                                      | TLNew => concat (rs_blocks (leaf_tree X) s) end))
+                 = concat (map (fun t => map snd (snd t)) (fst Y))
+  | Err e => R = Err e
+  | OutOfFuel => R = OutOfFuel
+  end.
+Proof. exact (fun lower upper X scan sl ac Hs Hu => R_namespaces_same lower X scan Hs upper sl ac Hu). Qed.
+Print Assumptions gen_namespaces_same_members_same_order.
+
+(* the hypotheses are satisfiable: a tokenizer side that reads one token as a one-leaf tree consumes a prefix
+   (upper idempotent: hypotheses_satisfiable in Props/C13.v) *)
+Theorem gen_leaf_hypotheses_satisfiable :
+  forall z o z', one_leaf_scan z = Ok (o, z') -> exists pre, z_toks z = pre ++ z_toks z'.
+Proof. exact one_leaf_scan_consumes. Qed.
+Print Assumptions gen_leaf_hypotheses_satisfiable.
